@@ -50,6 +50,12 @@ pub enum Ctl {
     Patch(u32, Vec<u8>),
     /// overwrite CCR on both sides, then ask again
     SetCcr(u8),
+    /// the emulator's interrupt controller gets a request for vector `v` - nothing is polled (it stays pending);
+    /// then ask again
+    Raise(u8),
+    /// poll for interrupts (the run loop's poll): the pending request of vector `v` must be accepted now
+    /// (reference: entry through `v`; emulator: poll only)
+    Poll(u8),
     Stop,
 }
 
@@ -156,6 +162,7 @@ pub fn lockstep(emu: &mut Emu, prog: &Prog, opts: &LsOpts, ctl: &mut dyn FnMut(&
             let v = View { idx, er: &s.er, ccr: s.ccr, pc: s.pc, last: last.as_ref(), last_states, peek: &peek };
             ctl(&v)
         };
+        let mut poll_only = false;
         let irq = match action {
             Ctl::Stop => {
                 out.end = End::Stopped;
@@ -176,8 +183,16 @@ pub fn lockstep(emu: &mut Emu, prog: &Prog, opts: &LsOpts, ctl: &mut dyn FnMut(&
                 emu.set_ccr(c);
                 continue;
             }
+            Ctl::Raise(v) => {
+                hooks::request_interrupt(&mut emu.cpu, v);
+                continue;
+            }
             Ctl::Step => None,
             Ctl::Irq(v) => Some(v),
+            Ctl::Poll(v) => {
+                poll_only = true;
+                Some(v)
+            }
         };
         // --- reference (with quirk fallback)
         let snapshot = if opts.quirks.is_empty() { None } else { Some((s.er, s.ccr, s.pc, s.overlay.clone())) };
@@ -188,7 +203,9 @@ pub fn lockstep(emu: &mut Emu, prog: &Prog, opts: &LsOpts, ctl: &mut dyn FnMut(&
         // --- emulator
         let res = match irq {
             Some(v) => {
-                hooks::request_interrupt(&mut emu.cpu, v);
+                if !poll_only {
+                    hooks::request_interrupt(&mut emu.cpu, v);
+                }
                 emu.try_interrupt()
             }
             None => emu.step(),
